@@ -106,3 +106,22 @@ Print Assumptions C17_state_space_py_reading_S_is_the_model.
 Print Assumptions C17_state_space_py_drops_are_the_model.
 Print Assumptions C17_state_space_py_S_after_any_history_is_pure.
 Print Assumptions C17_state_space_py_states_property_keeps_the_invariant.
+
+(* ---- the SOURCE of Epoch.__eq__ / __hash__ (phasegen/demography.py, translated on every run by translate/configs2coq.py into
+   gen/ConfigsGen.v): the key equality of the cache compares exactly the population sizes and migration rates (not the times), so the
+   hypothesis eqk_sound of the theorems above holds for everything that is computed from the sizes and rates of an epoch alone ---- *)
+From Coq Require Import String QArith.
+From PG Require Import gen.NpConfigs gen.ConfigsGen proofs.GenConfigsEquiv.
+Theorem C17_demography_py_equal_epochs_have_equal_rates : forall a b, Epoch_eq a b = true ->
+  same_sizes (ev_sizes a) (ev_sizes b) /\ same_mig (ev_mig a) (ev_mig b).
+Proof. exact gen_epoch_eq_sound. Qed.
+Theorem C17_demography_py_epoch_equality_ignores_times : forall a s e,
+  Epoch_eq a (mkEpochVal s e (ev_sizes a) (ev_names a) (ev_npops a) (ev_mig a)) = true.
+Proof. exact gen_epoch_eq_ignores_times. Qed.
+Theorem C17_demography_py_key_equality_is_sound : forall (Tr : Type) (trans_of : epoch_val -> Tr),
+  (forall a b, same_sizes (ev_sizes a) (ev_sizes b) -> same_mig (ev_mig a) (ev_mig b) -> trans_of a = trans_of b) ->
+  forall a b, Epoch_eq a b = true -> trans_of a = trans_of b.
+Proof. exact source_eqk_sound. Qed.
+Print Assumptions C17_demography_py_equal_epochs_have_equal_rates.
+Print Assumptions C17_demography_py_epoch_equality_ignores_times.
+Print Assumptions C17_demography_py_key_equality_is_sound.
